@@ -15,7 +15,8 @@ ASSUME = [
     "bases: the n=2 universe of C07 (all allocations incl. teams, all edge sets, all priority vectors over {500,700}, leave, daily limit) plus its project-ALAP variants; thorough adds the n=3 slice",
     "intruder: priority 1, effort {1/2, 1, 3} slots, on r1 or r2, declared first / between / last, free or pinned to day 2 10:00; plus special intruders (depending on a base task, task-level ALAP without deadline, milestone, 40 h effort) on one- and two-scenario variants of the unconstrained bases; all scenarios are compared",
     "precondition (checked, else skipped and counted): the project end is not extended in either run",
-    "'wide9' family: bases = the two ten-task projects of mc/props/wide.py with every single toggle, alone and with reversed declaration order (thorough: every subset of <= 2 of the 36 toggles); intruder = priority 1, 30 min or 10 h, on each of r1-r4, declared first, in the middle or last; pairs where a task is unscheduled or ends after the declared 8-week window in either run are skipped and counted",
+    "'wide9' family: bases = the two ten-task projects of mc/props/wide.py with every single toggle, alone and with reversed declaration order (thorough: every subset of <= 2 of the 37 toggles); intruder = priority 1, 30 min or 10 h, on each of r1-r4, declared first, in the middle or last; pairs where a task is unscheduled or ends after the declared 8-week window in either run are skipped and counted",
+    "'inhprio' family: leaves with an own priority (500 written out, or 600) one or two levels below a container that hands down 100 / 200 / 450; the added task's priority (300 / 460) lies between the container's and the leaves' - still strictly the lowest among the tasks that do work",
     "'alapext' family (open finding D55): backward-anchored work + a 40 / 60 h lowest-priority task that fits the declared window but triggers the scheduler's window extension; no precondition is applied there",
     "in backward (ALAP) projects intruders that depend on a base task are not generated: there the added task is a successor whose start is its predecessor's deadline, which C04 requires to be honoured",
 ]
@@ -89,6 +90,32 @@ def alapext(tier):
                         yield {"kind": "alapext", "palap": proj_alap, "a": a_h, "z": z_h, "zres": zres, "pos": pos}
 
 
+def inhprio(tier):
+    """Leaves that state their own priority (also the default value 500, written out) below containers that hand a LOWER priority
+    down; the added task's priority lies between the two: it is still strictly the lowest among the tasks that do work."""
+    for cp in (200, 100, 450):
+        for own in (500, 600):
+            for ip in (300, 460):
+                if not (cp < ip < own):
+                    continue
+                for depth in (1, 2):
+                    for alap in (False, True):
+                        for pos in ("first", "last"):
+                            for sib in (False, True):
+                                yield {"kind": "inhprio", "cp": cp, "own": own, "ip": ip, "depth": depth, "alap": alap, "pos": pos, "sib": sib}
+
+
+def inhprio_specs(it):
+    x = {"id": "x", "effort": 480, "alloc": ["r1"], "prio": it["own"]}
+    kids = [x] + ([{"id": "w", "effort": 240, "alloc": ["r2"]}] if it["sib"] else [])   # w inherits the container's priority, on another resource
+    box = {"id": "g", "prio": it["cp"], "children": kids if it["depth"] == 1 else [{"id": "h", "children": kids}]}
+    base = {"dur": "3w", "alap": it["alap"], "resources": [{"id": "r1"}, {"id": "r2"}], "tasks": [box, {"id": "top", "effort": 240, "alloc": ["r1"], "prio": 700}]}
+    w = copy.deepcopy(base)
+    zz = {"id": "zz", "effort": 480, "alloc": ["r1"], "prio": it["ip"]}
+    w["tasks"].insert(0 if it["pos"] == "first" else len(w["tasks"]), zz)
+    return base, w
+
+
 def alapext_specs(it):
     a = {"id": "a", "effort": it["a"] * 60, "alloc": ["r1"]}
     if not it["palap"]:
@@ -115,6 +142,8 @@ def specs(item):
         return wide.specs9(item)
     if item.get("kind") == "alapext":
         return alapext_specs(item)
+    if item.get("kind") == "inhprio":
+        return inhprio_specs(item)
     b = item["base"]
     base = c07.to_spec(b)
     base["alap"] = b["alap"]
@@ -180,7 +209,7 @@ def evaluate(item):
             if a != b:
                 v.append(("disturbed", f"{t['id']} (scenario {sc}): alone {a}, with lowest-priority task zz {b}"))
     zz = t2.get("zz") or t2.get("bg.zz")
-    if wide9 or item.get("kind") == "alapext":
+    if wide9 or item.get("kind") in ("alapext", "inhprio"):
         r["v"] = common.dedup(v)
         r["nt"] = True   # every resource of the wide bases carries base work
         return r
@@ -225,6 +254,7 @@ def run(ctx):
     from mc.props import wide
     explore(ctx, wide.universe9(ctx.tier), "mc.props.c09:evaluate", st, payload=payload, sample_of=sample)
     explore(ctx, alapext(ctx.tier), "mc.props.c09:evaluate", st, payload=payload, sample_of=sample, trait=trait)
+    explore(ctx, inhprio(ctx.tier), "mc.props.c09:evaluate", st, payload=payload, sample_of=sample)
     common.vacuity_guard(ctx, st)
     cov = st.coverage(
         "all (base, intruder) pairs of the stated base universe x intruder alphabet, two real scheduler runs per pair; states = distinct "
